@@ -263,3 +263,81 @@ impl DiffableStr for TStr {
         }
     }
 }
+
+/// A fourth user-defined text type: CHARACTER-INDEXED text. `len()` is the number of characters and `slice(rng)` takes a
+/// range of character positions (the trait documents them as "the length of the string" and "slices the string": the unit is
+/// the type's own); everything else is the `str` implementation. Whatever mixes byte offsets (`as_bytes()`, pointer
+/// arithmetic) with `len` / `slice` units goes wrong on the first multi-byte character.
+#[repr(transparent)]
+#[derive(PartialEq, Eq, PartialOrd, Ord, Hash, Debug)]
+pub struct UStr(str);
+
+#[derive(PartialEq, Eq, PartialOrd, Ord, Hash, Debug, Clone)]
+pub struct UString(String);
+
+impl UStr {
+    pub fn new(s: &str) -> &UStr {
+        // SAFETY: `UStr` is `repr(transparent)` over `str`
+        unsafe { &*(s as *const str as *const UStr) }
+    }
+    pub fn text(&self) -> &str {
+        &self.0
+    }
+    fn byte_pos(&self, char_pos: usize) -> usize {
+        self.0.char_indices().map(|(i, _)| i).chain(std::iter::once(self.0.len())).nth(char_pos).expect("character position out of range")
+    }
+}
+impl Borrow<UStr> for UString {
+    fn borrow(&self) -> &UStr {
+        UStr::new(&self.0)
+    }
+}
+impl ToOwned for UStr {
+    type Owned = UString;
+    fn to_owned(&self) -> UString {
+        UString(self.0.to_string())
+    }
+}
+fn wrap_u(v: Vec<&str>) -> Vec<&UStr> {
+    v.into_iter().map(UStr::new).collect()
+}
+impl DiffableStr for UStr {
+    fn tokenize_lines(&self) -> Vec<&Self> {
+        wrap_u(self.0.tokenize_lines())
+    }
+    fn tokenize_lines_and_newlines(&self) -> Vec<&Self> {
+        wrap_u(self.0.tokenize_lines_and_newlines())
+    }
+    fn tokenize_words(&self) -> Vec<&Self> {
+        wrap_u(self.0.tokenize_words())
+    }
+    fn tokenize_chars(&self) -> Vec<&Self> {
+        wrap_u(self.0.tokenize_chars())
+    }
+    fn tokenize_unicode_words(&self) -> Vec<&Self> {
+        wrap_u(self.0.tokenize_unicode_words())
+    }
+    fn tokenize_graphemes(&self) -> Vec<&Self> {
+        wrap_u(self.0.tokenize_graphemes())
+    }
+    fn as_str(&self) -> Option<&str> {
+        Some(&self.0)
+    }
+    fn to_string_lossy(&self) -> Cow<'_, str> {
+        Cow::Borrowed(&self.0)
+    }
+    fn ends_with_newline(&self) -> bool {
+        self.0.ends_with_newline()
+    }
+    /// the number of CHARACTERS
+    fn len(&self) -> usize {
+        self.0.chars().count()
+    }
+    /// a range of CHARACTER positions
+    fn slice(&self, rng: Range<usize>) -> &Self {
+        UStr::new(&self.0[self.byte_pos(rng.start)..self.byte_pos(rng.end)])
+    }
+    fn as_bytes(&self) -> &[u8] {
+        self.0.as_bytes()
+    }
+}
